@@ -37,7 +37,8 @@ PROPS = {
     "C04": dict(parts=[Z("C04", w=4), Z("C05", scen="timers")], quick=24000, thorough=1200000, nontrivial=["timer_fired", "block"], level="exploration"),
     "C05": dict(parts=[Z("C05", scen="timers", w=3), Z("C04")], quick=2500, thorough=120000, nontrivial=["timer_many"], level="exploration"),
     "C06": dict(parts=[Z("C06")], quick=24000, thorough=1200000, nontrivial=["task_ran"], level="exploration"),
-    "C07": dict(parts=[Z("C07", w=4), Z("C13", scen="pool"), Z("C19", scen="popen")], quick=24000, thorough=1200000, nontrivial=["block"], level="exploration"),
+    "C07": dict(parts=[Z("C07", w=6), Z("C13", scen="pool", w=2), Z("C19", scen="popen", w=2), Z("C11", scen="wait"), Z("C10", scen="sig"),
+                       Z("C20", scen="inot"), Z("C17", scen="pump")], quick=24000, thorough=1200000, nontrivial=["block"], level="exploration"),
     "C08": dict(parts=[Z("C08")], quick=20000, thorough=1000000, nontrivial=["post_cross", "event_cb"], level="exploration"),
     "C09": dict(parts=[Z("C09")], quick=20000, thorough=1000000, nontrivial=["raw_cb"], level="exploration"),
     "C10": dict(parts=[Z("C10", scen="sig")], quick=20000, thorough=1000000, nontrivial=["sig_cb"], level="exploration"),
@@ -180,6 +181,9 @@ class Agg:
             self.sample_sw = r
 
 
+OWNER = ""	# the property whose check is running: only its violations end a batch early
+
+
 def run_workers(exe, mode, scen, prop, tier, base, total, outdir, seconds):
     per = (total + NWORKERS - 1) // NWORKERS
     procs = []
@@ -189,7 +193,7 @@ def run_workers(exe, mode, scen, prop, tier, base, total, outdir, seconds):
         if cnt <= 0:
             break
         cmd = [exe, mode, scen, prop, str(tier), str(base), str(start), str(cnt), outdir, str(seconds)]
-        procs.append(subprocess.Popen(cmd, stdout=subprocess.PIPE, stderr=subprocess.DEVNULL, text=True))
+        procs.append(subprocess.Popen(cmd, stdout=subprocess.PIPE, stderr=subprocess.DEVNULL, text=True, env=dict(os.environ, IVSIM_OWNER=OWNER)))
     for p in procs:
         out, _ = p.communicate()
         for line in out.splitlines():
@@ -421,6 +425,8 @@ def check(prop, tier_name):
     total = int(os.environ.get("VERIF_RUNS", total))
     seconds = float(os.environ.get("VERIF_SECONDS", cfg.get("thorough_s", 780) if tier else cfg.get("quick_s", 50)))
     outdir = tempfile.mkdtemp(prefix="ivsim-%s-" % prop, dir=os.environ.get("TMPDIR", "/dev/shm"))
+    global OWNER
+    OWNER = prop
     agg = Agg(prop, cfg)
     machinery = 0
     first_pass = {}
@@ -519,7 +525,7 @@ def evidence(prop, tier_name, base, cfg, agg, wall, nviol, exes):
         fault_site_names={"1": "wait EINTR", "2": "epoll_pwait2 ENOSYS/EPERM", "3": "ppoll ENOSYS", "4": "epoll_create1 ENOSYS",
                           "5": "epoll_create ENOSYS", "6": "timerfd_create ENOSYS", "7": "eventfd2 EINVAL/ENOSYS/EMFILE",
                           "8": "eventfd ENOSYS/EMFILE", "9": "pipe EMFILE", "10": "pipe2 ENOSYS", "11": "splice",
-                          "12": "kick epoll_ctl ADD ENOSPC", "13": "write error", "14": "read error", "15": "fork EAGAIN"},
+                          "12": "kick epoll_ctl ADD ENOSPC", "13": "write error", "14": "read error", "15": "fork EAGAIN", "16": "pthread_create EAGAIN", "17": "inotify_init EMFILE", "18": "inotify_add_watch ENOSPC"},
         poll_methods=agg.methods,
         probes=agg.probes,
         callbacks=agg.cbs,
